@@ -130,7 +130,11 @@ Definition leg_check (f : dcfg -> dround -> option string) (c : dcase) : verdict
   | None => OK
   end.
 
-Definition C03d_check := leg_check (fun c r => C03d_round c (d_cache r) (d_events r)).
+Definition C03d_check := leg_check (fun c r =>
+  orelse_s (C03d_round c (d_cache r) (d_events r))
+           (match target_of c (d_cache r) with
+            | Some t => C03d_namespace_default c t (d_events r)
+            | None => None end)).
 Definition C12d_check := leg_check (fun c r => C12d_round (dk_key (d_cache r)) (d_events r) (d_result r) (d_queue r)).
 Definition C13d_check := leg_check (fun c r => C13d_round (d_events r) (d_result r)).
 
